@@ -187,7 +187,11 @@ def match_known(pid, ob):
 def write_replay(pid, ob):
     d = os.path.join(VERIF, "replay")
     os.makedirs(d, exist_ok=True)
-    p = os.path.join(d, "%s_%s.json" % (pid, ob.name.replace("/", "_").replace(" ", "_")))
+    tag = ""
+    k = (ob.model or {}).get("key")
+    if k:
+        tag = "_" + hashlib.sha256(str(k).encode()).hexdigest()[:6]
+    p = os.path.join(d, "%s_%s%s.json" % (pid, ob.name.replace("/", "_").replace(" ", "_"), tag))
     with open(p, "w") as fh:
         json.dump({"property": pid, "obligation": ob.to_json()}, fh, indent=1)
     ob.replay = p
